@@ -44,7 +44,7 @@ def waiver(u, r, red):
 
 Contract(R_, 'FetchRule.consult_filters',
     {'self': TObj('FetchRule'), 'url_info': TObj('URLInfo'), 'url_record': TObj('URLRecord'), 'is_redirect': TOpt(TBool())},
-    ret=TTuple(TBool(), TStr(), TOpt(INFO)), prop='C02', defaults={'is_redirect': False},
+    ret=TTuple(TBool(), TStr(), TOpt(INFO)), prop='C02/C18', defaults={'is_redirect': False},
     requires=['implies(self._url_filter is not None, %s)' % UNIQ(G)],
     ensures=[('nofilters', 'implies(self._url_filter is None, result[0] and result[1] == "nofilters" and result[2] is None)'),
              ('sound', waiver('url_info', 'url_record', 'truthy(is_redirect)')[0]),
